@@ -73,7 +73,7 @@ def dres_term(o):
 HEADER = 'From AV Require Import Base Utf8 Json Codec.'
 
 MEMBER_VALUES = {
-    'jsonrpc': ['2.0', '1.0', '2', 2.0, 2, None],
+    'jsonrpc': ['2.0', '1.0', '2', 2.0, 2, None, [], {}, ['2.0'], {'v': 2}, True],
     'method': ['m', '', 'a.b', 5, None, ['m'], True],
     'params': [[], [1, 'x'], {}, {'a': 1}, None, 'str', 7, True, [[]]],
     'id': [0, 1, -5, 'abc', '', None, 1.5, True, [1], {'a': 1}, 10 ** 25],
